@@ -34,7 +34,8 @@ Local Open Scope Z_scope.
    lookahead per nonterminal) is DERIVED from the success of to_cfg (Expand_derives3.to_cfg_shape), not assumed.
    NOT proved: that to_cfg always succeeds on the output of Expand for a wf_model with res_error = false (per rule:
    C13_expand_shape); it is checked per case.
-   The per-step theorem about one nonterminal keeps its historical suffix _partial (it is a step of the whole). *)
+   The per-step theorem about one nonterminal (formerly C13_expand_preserves_partial) is now C13_expand_nonterm_preserves:
+   it is a complete statement about one step, and the whole is C13_expand_correct_wf / C13_expand_correct_derives. *)
 
 (* the whole of Expand, static hypothesis only *)
 Theorem C13_expand_correct_wf :
@@ -149,7 +150,7 @@ Proof.
 Qed.
 
 (* one original nonterminal: its new value (choice of flat rules) denotes what its extended value denotes *)
-Theorem C13_expand_preserves_partial :
+Theorem C13_expand_nonterm_preserves :
   forall T rho setden c, T = cT c ->
   forall v st v' st', expand_nonterm c st v = (v', st') ->
     (forall k nv, nth_error (x_extras st') k = Some nv ->
@@ -245,7 +246,7 @@ Print Assumptions C13_language_is_a_solution.
 Print Assumptions C13_extracted_lists_invariant.
 Print Assumptions C13_multi_concat_is_product.
 Print Assumptions C13_expand_expr_preserves.
-Print Assumptions C13_expand_preserves_partial.
+Print Assumptions C13_expand_nonterm_preserves.
 Print Assumptions C13_list_rules_unfold.
 Print Assumptions C13_equal_expressions_same_language.
 Print Assumptions C13_expand_shape.
